@@ -882,7 +882,14 @@ func Execute(id, tier string, seed int64, verbose bool) int {
 				fmt.Printf("INCOMPLETE property=%s %s\n", id, s)
 			}
 		}
-		if len(incompleteInst)*50 > evaluations {
+		// instances that ran out of budget are reported (here and in the evidence) as
+		// outside what was explored; too many of them and the check declines to answer
+		// (quick: more than 2 %, thorough: more than 10 % of the instances)
+		limit := 50
+		if tier == "thorough" {
+			limit = 10
+		}
+		if len(incompleteInst)*limit > evaluations {
 			code = 2
 		}
 	}
